@@ -561,6 +561,8 @@ def funds_coin(prog, t, denom_path=("protocol_chain_config", "ibc_token_denom"))
     if c[0] != "call" or not c[1].endswith("Iterator::find"):
         return False
     src, clo = c[2][0], c[2][1]
+    if clo[0] != "closure":
+        return False
     base, path = field_path(src)
     if not (path == ["funds"] and is_param_of_type(base, "MessageInfo")):
         return False
@@ -840,6 +842,17 @@ def is_reward(prog, t, _again=True):
     local helper (`attached_ibc_token_amount(&config, &info.funds)?`)"""
     if t[0] == "field" and t[2] == "amount" and funds_coin(prog, t[1]):
         return True
+    if t[0] == "payload":
+        # funds.iter().find_map(|c| (c.denom == ibc_denom).then_some(c.amount))
+        fm = unwrap_payload(t)
+        if fm[0] == "call" and fm[1].endswith("Iterator::find_map") and len(fm[2]) == 2 and fm[2][1][0] == "closure":
+            base_, path_ = field_path(fm[2][0])
+            r_ = closure_result(prog, fm[2][1], params={2: ("elem", "funds")})
+            if path_ == ["funds"] and is_param_of_type(base_, "MessageInfo") and r_ is not None and r_[0] == "call" and r_[1].split("::")[-1] == "then_some" and "bool" in r_[1] and len(r_[2]) == 2:
+                cnd, val = r_[2]
+                okc = cnd[0] == "call" and cnd[1] == "std::cmp::PartialEq::eq" and any(x_ == ("field", ("elem", "funds"), "denom") and loaded_field(prog, y_, "config", ["protocol_chain_config", "ibc_token_denom"], "staking") for x_, y_ in ((cnd[2][0], cnd[2][1]), (cnd[2][1], cnd[2][0])))
+                if okc and val == ("field", ("elem", "funds"), "amount"):
+                    return True
     if t[0] == "payload":
         # helper(..).ok_or(NoFunds)? / .map(|c| c.amount): the payload behind the combinators
         from engine.analysis import ok_payload as _okp
